@@ -136,6 +136,17 @@ Theorem collect_fails_only_on_duplicate : forall cs, collect [] cs = Err ->
 Proof. exact Fasta_proofs.collect_fails_lemma. Qed.
 Print Assumptions collect_fails_only_on_duplicate.
 
+(* ---- 7. end to end in model terms: whatever create accepts, every record with at least one base is in the
+   archive view under its sample, with its name and the read-back of its sequence ([read_back] = [norm] on the
+   property's alphabet by extraction_normal_form; kept non-letters come back as N) ---- *)
+Theorem create_view_complete : forall files v fname text r,
+  create_view files = Ok v -> In (fname, text) files -> first_line_ok text = true ->
+  In r (records text) -> rec_has_base r = true ->
+  exists contigs, In (sample_for fname (rec_name r), contigs) v /\
+                  In (rec_name r, map (fun c => if is_letter c then norm_letter c else 78) (filter keep (snd r))) contigs.
+Proof. exact Fasta_proofs.create_view_complete_lemma. Qed.
+Print Assumptions create_view_complete.
+
 Example create_view_nonvacuous :
   (* two files r.fa = ">a\nACGT\n>b\nTG\n", s.fa = ">x#1#c\nAC\n>p\nGX\n>e\n\n" *)
   create_view [([114;46;102;97], [62;97;10;65;67;71;84;10;62;98;10;84;71;10]);
